@@ -78,7 +78,10 @@ var mdbCommands = []database.Command{
 	{Command: "docker run -it img", Description: "run a container", Keywords: []string{"docker", "run"}, Niche: "docker"},
 	{Command: "find . -name x | xargs rm", Description: "find and delete files", Keywords: []string{"find", "delete"}, Pipeline: true},
 }
-var mDbOps = []string{"load", "save", "reload", "a:b", "x=1:success=true", "", "load:success=false"}
+
+// names that a hand-made series key could confuse with another (operation, outcome) pair: wave 7, C18-B kept resolved series in a
+// map keyed by name + "_failed", so ("load", failed) and ("load_failed", succeeded) shared one series
+var mDbOps = []string{"load", "save", "reload", "a:b", "x=1:success=true", "", "load:success=false", "load_failed", "save_failed", "load_false", "loadfalse", "load_true", "load_ok", "load.failed", "load-failed"}
 
 func genIdent(r *Rng) mIdent {
 	id := mIdent{name: Pick(r, mNames)}
@@ -233,7 +236,11 @@ func genMetrics(r *Rng, tier string, idx int, args map[string]string) []string {
 		case x < 89:
 			ops = append(ops, "recsearch "+Itoa64(int64(r.Intn(5_000_000_000)))+" "+Itoa(r.Intn(50))+" "+B(r.Bool())+" "+Itoa(r.Intn(200)))
 		case x < 95:
-			ops = append(ops, "recdb "+Hx(Pick(r, mDbOps))+" "+Itoa64(int64(r.Intn(5_000_000_000)))+" "+B(r.Bool()))
+			name := Pick(r, mDbOps)
+			if r.Chance(1, 3) {
+				name = Pick(r, []string{"load", "load_failed"}) // a pair a concatenated key confuses, often enough to meet in one case
+			}
+			ops = append(ops, "recdb "+Hx(name)+" "+Itoa64(int64(r.Intn(5_000_000_000)))+" "+B(r.Bool()))
 		case x < 96:
 			ops = append(ops, "enable "+B(r.Chance(2, 3)))
 		case x < 98:
